@@ -141,6 +141,8 @@ pub struct Src {
     pub enabled_at_dispatch_start: bool,
     pub must: Option<String>,
     pub enabled_since_cb: bool,
+    /// the source's last registration call left it registered with the poller
+    pub registered: bool,
     // ping
     pub ping_handles: Vec<Ping>,
     pub pings: u64,
@@ -205,6 +207,7 @@ impl Src {
             enabled_at_dispatch_start: false,
             must: None,
             enabled_since_cb: false,
+            registered: false,
             ping_handles: vec![],
             pings: 0,
             ping_closed: false,
